@@ -23,6 +23,7 @@ import (
 
 type sockFailure struct {
 	Kind string      `json:"kind"`
+	Cls  string      `json:"cls,omitempty"`
 	What string      `json:"what"`
 	Case interface{} `json:"case"`
 }
